@@ -30,7 +30,7 @@ m = {
     "setup_cmd": "cd /verif/vfy && GOFLAGS=-mod=vendor GOPROXY=off GOSUMDB=off GOTOOLCHAIN=local go build -o /verif/bin/vfy .",
     "hooks": {
         "guard": "verif",
-        "enable": "go/packages load with -tags=verif; the only guarded files are comment-only zz_verif_contracts.go (no executable hook)",
+        "enable": "go/packages load with -tags=verif; guarded files: comment-only zz_verif_contracts.go (contracts) and zz_verif_lemmas.go (lemma functions that call library functions so that the verifier checks that their contracts compose; never called by the library, not compiled without the tag)",
         "baseline_off_cmd": "cd /repo && go test -vet=off -count=1 ./...",
         "source_commits": hook_commits,
         "add_only": True,
